@@ -76,6 +76,34 @@ PROPS = {
                         "imo/imd cells of pt_fld: bounded only"],
         "technique": "contract-based deductive verification of history contracts (invariant stability under in-place edits) + C static-invariant VCs + bounded process-history comparison",
     },
+    "C10": {
+        "level": "proof",
+        "engines": [{"kind": "pyse", "include_props": ["C01", "C02"]},
+                    {"kind": "lean", "lemmas": ["tm01_bounds", "tm02_le_tm01", "tm02_bounds", "swe_bounds", "spread_radicand_bounds",
+                                                "atan2_scale_real", "sum_nonneg", "cauchy_schwarz_moments", "resultant_le"]}],
+        "explanation": "Lemmas over the postconditions established in C01/C02 (the specification functions the real code was proved "
+        "against), for all grids and values: E -> kE multiplies hs/hrms by sqrt(k), moments/uss/mss by k, leaves tm01, tm02, goda, dm, the peak "
+        "index and tp unchanged; relabelling directions by +a leaves the circular bin width and hence hs, tm02; 1/fmax <= Tm02 <= Tm01 <= "
+        "1/fmin, swe <= 1, 0 <= dspr <= 81.03 (instances of Lean-checked inequalities); directions lie in [0,360); scale_by_hs (real code) "
+        "yields exactly the prescribed height inside the stated range and leaves other spectra untouched.",
+        "trusted_base": ["lean/Lemmas.lean (Lean 4 + Mathlib): moment/Cauchy-Schwarz/resultant inequalities, atan2 scaling",
+                         "correspondence between a Lean statement and its instance used by z3 is by inspection (one line each)"],
+        "assumptions": ["dm/dpm/dp shifting by the rotation angle, dspr invariance under scaling: concrete replays only (bounded), not proved",
+                        "alpha scales with k by its definition (Phillips constant); not claimed as shape parameter",
+                        "scale_by_hs: prescribed height requires expr(hs) >= 0 and hs > 0 (side conditions)"],
+        "technique": "lemmas over contracts: z3 on the specification functions + Lean/Mathlib lemma instances",
+    },
+    "C06": {
+        "level": "proof",
+        "engines": [{"kind": "pyse"}],
+        "explanation": "Every statistic under contract is proved equal, at an arbitrary (skolem) position of an arbitrary non-spectral "
+        "dimension, to a specification that reads the input at that position only; in addition a frame obligation checks that the result "
+        "term mentions the input function symbol at that position only (looking through Sigma kernels). Dataset accessor = efth accessor is "
+        "the C18 history contract. Concrete replays overwrite all other positions / extract the single spectrum and compare.",
+        "trusted_base": ["apply_ufunc(vectorize=True) contract: per-position application"],
+        "assumptions": ["non-spectral dimensions are represented by one generic dimension 'pos' (the code refers to freq/dir/time by name only)",
+                        "transforms (regrid, smooth) and watershed partitions are covered under C08/C16/C03 where claimed"],
+    },
 }
 
 _PENDING = "not yet brought under contract in the current build round (see DESIGN.md section 8 for the order of work)"
